@@ -140,6 +140,9 @@ class ShardsList(BaseModel):
         if v.name != "shards_list.json":
             raise ValueError(f"The name must be \"shards_list.json\", got "
                              f"{v.name} in the path {v}")
+        if v.is_absolute():
+            raise ValueError("An absolute path is not relative to "
+                             "`dataset_root_path`.")
         if ".." in v.parts:
             raise ValueError("A .. is present in the path which could allow "
                              "directory traversal above `dataset_root_path`.")
